@@ -172,6 +172,8 @@ func runCase(c crashCase) string {
 		return runParserCase(c)
 	case "dht":
 		return runDHTCase(c)
+	case "quic":
+		return runQuicCase(c)
 	}
 	return "unknown target " + c.Target
 }
